@@ -27,8 +27,38 @@ func rtResetComplete(a *aggregator, v *rtView) {
 	}
 	S := map[string]token.Pos{}
 	writers := map[string][]string{}
+	fam := v.resetFamily()
+	// the steps of reset: the helper closures it calls in a block every return of reset is behind
+	type step struct {
+		h   *ssa.Function
+		blk *ssa.BasicBlock
+	}
+	var steps []step
+	var gather func(f *ssa.Function, at *ssa.BasicBlock, depth int)
+	gather = func(f *ssa.Function, at *ssa.BasicBlock, depth int) {
+		if depth > 4 {
+			return
+		}
+		for h, calls := range v.calledClosures(f) {
+			if !fam[h] {
+				continue
+			}
+			for _, c := range calls {
+				if !allReturnsDominatedBy(f, c.Block()) {
+					continue
+				}
+				blk := at
+				if f == reset {
+					blk = c.Block()
+				}
+				steps = append(steps, step{h, blk})
+				gather(h, blk, depth+1)
+			}
+		}
+	}
+	gather(reset, nil, 0)
 	consider := func(f *ssa.Function, label string) {
-		if f == reset {
+		if fam[f] {
 			return
 		}
 		for n, p := range v.writtenVars(f) {
@@ -69,6 +99,19 @@ func rtResetComplete(a *aggregator, v *rtView) {
 				must = true
 			}
 		}
+		// … or in a step of reset, on every path through that step
+		for _, sp := range steps {
+			instrsOf(sp.h, func(in ssa.Instruction) {
+				if st, ok := in.(*ssa.Store); ok {
+					if nm, whole := v.varOf(st.Addr); nm == n && whole {
+						stores = append(stores, st)
+						if allReturnsDominatedBy(sp.h, st.Block()) && sp.blk != nil && allReturnsDominatedBy(reset, sp.blk) {
+							must = true
+						}
+					}
+				}
+			})
+		}
 		if !must {
 			sort.Strings(writers[n])
 			a.Bad("R-reset-complete", construct, cfg, v.in.srcPos(reset.Pos()),
@@ -86,8 +129,8 @@ func rtResetComplete(a *aggregator, v *rtView) {
 			"assigned in a block dominating every return of reset, from constants / fresh allocations / p.Buffer only",
 			fmt.Sprintf("reset assigns %q from a value that depends on per-parse state (%s)", n, dep))
 	}
-	if len(names) < 3 {
-		a.Und("R-reset-complete", "Init/state variables", cfg, "", fmt.Sprintf("only %d written state variables found (expected position, tokenIndex, maxToken, …)", len(names)))
+	if len(names) < 2 {
+		a.Und("R-reset-complete", "Init/state variables", cfg, "", fmt.Sprintf("only %d written state variables found (expected position, tokenIndex, …)", len(names)))
 	}
 }
 
